@@ -1944,6 +1944,78 @@ func queueCase(r *hlib.SplitMix64, gen string, capacity int) row {
 	return rw
 }
 
+// ---------------------------------------------------------------- slow standard output while the flush timer fires
+
+type slowWriter struct {
+	recWriter
+	delay time.Duration
+}
+
+func (w *slowWriter) Write(p []byte) (int, error) {
+	time.Sleep(w.delay) // a terminal, a pipe into a slow consumer
+	return w.recWriter.Write(p)
+}
+
+// slowCase: a steady stream of results into the real JSON logger whose writer takes a while per Write
+// and whose flush interval is shorter than that, so that flushes and result writes overlap in time all
+// the time.  Judged on the implementation alone: every result exactly one line, in order.
+func slowCase(r *hlib.SplitMix64, gen string) row {
+	n := 20 + r.Intn(40)
+	rw := row{T: "log", Gen: gen, Class: "closed+slow-writer+ticks", Stop: -1, Nontrivial: true}
+	w := &slowWriter{delay: time.Duration(200+r.Intn(400)) * time.Microsecond}
+	lg, err := log.NewLogger(w, "slow", log.JSON(), log.FlushInterval(time.Duration(50+r.Intn(200))*time.Microsecond))
+	if err != nil {
+		panic(err)
+	}
+	ctx, cancel := context.WithCancel(context.Background())
+	defer cancel()
+	ch := make(chan scan.Result, 8)
+	done := make(chan struct{})
+	go func() { lg.LogResults(ctx, ch); close(done) }()
+	var gs []genRes
+	for i := 0; i < n; i++ {
+		x := &tcp.ScanResult{ScanType: tcp.SYNScanType, IP: fmt.Sprintf("10.8.0.%d", i), Port: uint16(1 + i)}
+		gs = append(gs, genRes{real: x, desc: resDesc{1, []val{sval(x.ScanType), sval(x.IP), nval(int64(x.Port)), sval(x.Flags)}}})
+		select {
+		case ch <- x:
+		case <-time.After(5 * time.Second):
+			rw.Spec = fmt.Sprintf("LogResults stops taking results after %d of %d", i, n)
+			return rw
+		}
+		if r.Intn(3) == 0 {
+			time.Sleep(time.Duration(r.Intn(150)) * time.Microsecond)
+		}
+	}
+	close(ch)
+	select {
+	case <-done:
+	case <-time.After(20 * time.Second):
+		rw.Spec = "LogResults does not return after its input ended"
+		return rw
+	}
+	time.Sleep(2 * w.delay) // a straggling background flush, if any
+	var stream, want []byte
+	w.mu.Lock()
+	for _, p := range w.writes {
+		stream = append(stream, p...)
+	}
+	w.mu.Unlock()
+	rw.Writes = []string{hx(stream)}
+	for _, g := range gs {
+		rw.Rs = append(rw.Rs, g.desc)
+		enc, _ := g.real.MarshalJSON()
+		want = append(append(want, enc...), '\n')
+	}
+	if !bytes.Equal(stream, want) {
+		lines := bytes.Count(stream, []byte{'\n'})
+		rw.Spec = fmt.Sprintf("%d results through the JSON logger while its writer takes %v per write and the flush timer fires every few hundred microseconds: the output has %d lines", n, w.delay, lines)
+		if lines == n {
+			rw.Spec += " but they are not the results' encodings in order (merged, split or reordered)"
+		}
+	}
+	return rw
+}
+
 // ---------------------------------------------------------------- driver
 
 func derive(seed int64, i int) int64 {
@@ -1992,6 +2064,8 @@ func genCase(gen string) row {
 		return liveCase(hlib.NewRand(num(1)), gen)
 	case "burst":
 		return burstCase(hlib.NewRand(num(1)), gen)
+	case "slow":
+		return slowCase(hlib.NewRand(num(1)), gen)
 	case "queue": // queue:<capacity>:<seed>
 		return queueCase(hlib.NewRand(num(2)), gen, int(num(1)))
 	}
@@ -2074,6 +2148,10 @@ func main() {
 		}
 		w.Put(genCase(fmt.Sprintf("queue:1000:%d", derive(*seed, k))))
 		k++
+		for i := 0; i < 12; i++ {
+			w.Put(genCase(fmt.Sprintf("slow:%d", derive(*seed, k))))
+			k++
+		}
 	}
 	for i := 0; i < *nburst; i++ {
 		w.Put(genCase(fmt.Sprintf("burst:%d", derive(*seed, k))))
